@@ -32,7 +32,9 @@ SHIMS = ["driver_actions.len -> symbolic length for the stand-in stream", "drive
 def ENCODED():
     import ethosu.vela.driver_actions as da
 
-    return [da.create_driver_payload, da.emit_fourcc, da.emit_config, da.build_config_word, da.build_id_word,
+    import ethosu.vela.register_command_stream_generator as g
+
+    return [g.generate_command_stream, g.CommandStreamEmitter.size_in_bytes, g.CommandStreamEmitter.to_list, da.create_driver_payload, da.emit_fourcc, da.emit_config, da.build_config_word, da.build_id_word,
             da.emit_cmd_stream_header, da.make_da_tag, da.npu_create_driver_payload]
 
 
@@ -46,7 +48,7 @@ class _Stream:
 
 
 def _slen(x):
-    if isinstance(x, _Stream):
+    if hasattr(x, "sym_len"):
         return x.sym_len
     return builtins.len(x)
 
@@ -176,7 +178,57 @@ def api(V, accel, n):
     return cl
 
 
-FUNCS = {"header": header, "content": content, "api": api}
+class _Bulk:
+    """stand-in for the commands emitted for earlier operations: W words (symbolic), nothing to iterate"""
+
+    def __init__(self, w):
+        self.sym_len = w
+
+    def __iter__(self):
+        return iter(())
+
+
+def stream_limit(V, accel, kind):
+    """the generator's own hardware-limit guard (generate_command_stream): a stream of 2^24 bytes (2^22 words) or more is rejected.  The
+    commands of earlier operations are abstracted by one entry of W words (symbolic) placed in the emitter before a real operation is
+    generated; replay uses a real tuple of W words."""
+    import ethosu.vela.register_command_stream_generator as g
+    from ethosu.vela.errors import VelaError
+    from harness.c06 import _template
+    from harness.c04 import arch_for
+
+    arch = arch_for(accel)
+    W = V.int("earlier_words", 0, 1 << 23)
+    real = g.CommandStreamEmitter
+
+    class Emitter(real):
+        def __init__(self):
+            real.__init__(self)
+            self.cmd_stream.append(_Bulk(W) if V.symbolic else (0,) * int(W))
+
+    op = _template(accel, kind)
+    limits = {r: arch.max_address_offset for r in range(8)}
+    limits[259] = arch.shram_size_bytes
+    saved = g.CommandStreamEmitter
+    g.CommandStreamEmitter = Emitter
+    # class attributes referenced through the class name inside methods (CommandStreamEmitter.WORD_SIZE) resolve to the subclass: same values
+    try:
+        with core.shims((g, {"len": _slen})):
+            try:
+                words = g.generate_command_stream([op], arch, False, limits)
+            except VelaError:
+                words = None
+    finally:
+        g.CommandStreamEmitter = saved
+    if words is None:
+        # the words of the real operation are not known on this path; the guard may only fire when the stream can reach the limit at all
+        return [("VelaError only when the stream reaches 2^22 words", L(W) + 200 >= (1 << 22))]
+    emitted = len(words) - (int(W) if not V.symbolic else 0)
+    return [("a stream of 2^22 words (16 MiB) or more is rejected", L(W) + emitted < (1 << 22)),
+            ("the operation's own commands are a handful of words", emitted < 200)]
+
+
+FUNCS = {"header": header, "content": content, "api": api, "stream_limit": stream_limit}
 
 
 def instances(tier, seed):
@@ -186,4 +238,7 @@ def instances(tier, seed):
         for n in range(0, 5):
             out.append(dict(key="content/%s/%d" % (a, n), fn="content", params=dict(accel=a, n=n)))
         out.append(dict(key="api/%s" % a, fn="api", params=dict(accel=a, n=2)))
+    for a in ("Ethos_U55_128", "Ethos_U65_512"):
+        for kind in ("conv", "dma"):
+            out.append(dict(key="stream_limit/%s/%s" % (a, kind), fn="stream_limit", params=dict(accel=a, kind=kind)))
     return out
